@@ -669,12 +669,119 @@ def ann_case(rng):
     return " ".join(items)
 
 
+# ---- members defined in ANOTHER file than their table (seeded/C04-6: FindReferenceVarDefine took the FILE of a member's
+# definition from the parent table: `M = {}` in one file, `M.yy = 2` / `function M.f()` in another - references / rename /
+# highlight reported the member's Loc under the table's URI). The table file and the member file have DIFFERENT layouts
+# (head comments, indentation, other statements in front), so a Loc carried over to the wrong file does not designate the name.
+X_TABLES = ["M", "cfg", "Mod_1", "registry"]
+X_MEMBERS = ["yy", "port", "name_1", "zz", "handler", "k"]
+X_HEADS = ["-- members of %s, added by another file", "-- 中文 说明", "", "local _ = 0", "-- c", "\t-- note", "local unused_1 = {}"]
+
+
+def cross_case(rng):
+    eol = rng.choice(["\n", "\n", "\r\n", "\r"])
+    tb = rng.choice(X_TABLES)
+    subs = rng.sample(["sub", "net", "inner"], rng.choice([0, 1, 1, 2]))
+    mems = rng.sample(X_MEMBERS, rng.choice([1, 2, 3]))
+    nfiles = rng.choice([2, 2, 2, 3])
+    rels = ["a.lua", "b.lua", "sub/c.lua"][:nfiles]
+    if rng.random() < 0.3:
+        rels = rels[::-1]                       # the member file sorts BEFORE the table file
+    lines = [[] for _ in range(nfiles)]         # per file: list of part lists (strings or (name, "id") marks)
+    home = {}                                   # chain (tuple) -> file that defines it
+    tfile = 0
+    # heads: every file starts differently
+    for f in range(nfiles):
+        for _ in range(rng.choice([0, 1, 2, 4]) if f == tfile else rng.choice([1, 2, 3, 5, 7])):
+            h = rng.choice(X_HEADS)
+            lines[f].append([h % tb if "%s" in h else h])
+    lines[tfile].append([rng.choice(["", "", "  "]), (tb, "id"), " = ", rng.choice(["{}", "{ }", "{ version = 1 }"])])
+    chains = []
+    for sname in subs:                          # sub-tables: defined in the table file or elsewhere
+        f = tfile if rng.random() < 0.5 else rng.randrange(nfiles)
+        lines[f].append([rng.choice(["", " ", "\t"]), (tb, "id"), ".", (sname, "id"), " = {}"])
+        home[(tb, sname)] = f
+    for m in mems:
+        owner = [tb] + ([rng.choice(subs)] if subs and rng.random() < 0.45 else [])
+        f = rng.choice([x for x in range(nfiles) if x != tfile]) if rng.random() < 0.85 else tfile
+        ind = rng.choice(["", "", "  ", "\t", "      "])
+        pre = rng.choice([[], [], ["local _ = ", rng.choice(['"中文"', "'x y'", "0"]), "; "]])
+        ch = sum([[(o, "id"), "."] for o in owner], [])
+        k = rng.random()
+        if k < 0.45:
+            lines[f].append([ind] + pre + ch + [(m, "id"), " = ", rng.choice(["2", '"v"', "{}", "function() end"])])
+        elif k < 0.75:
+            lines[f].append([ind] + pre + ["function "] + ch + [(m, "id"), "(p) return p end"])
+        elif k < 0.9:
+            lines[f].append([ind] + pre + ["function "] + ch[:-1] + [":", (m, "id"), "(p) return p end"])
+        else:
+            lines[f].append([ind] + pre + ch + [(m, "id"), " = ", (tb, "id"), ".", (m, "id"), " or 1"])
+        chains.append(owner + [m])
+    for f in range(nfiles):                     # uses in every file
+        for _ in range(rng.choice([1, 2, 3])):
+            c = rng.choice(chains)
+            ch = sum([[(o, "id"), "."] for o in c[:-1]], []) + [(c[-1], "id")]
+            k = rng.random()
+            ind = rng.choice(["", "", "  ", "\t"])
+            if k < 0.4:
+                lines[f].append([ind, "print("] + ch + [")"])
+            elif k < 0.6:
+                c2 = rng.choice(chains)
+                ch2 = sum([[(o, "id"), "."] for o in c2[:-1]], []) + [(c2[-1], "id")]
+                lines[f].append([ind, "print("] + ch + [" , "] + ch2 + [")"])
+            elif k < 0.8:
+                lines[f].append([ind, "local v%d = " % rng.randrange(9)] + ch)
+            else:
+                lines[f].append([ind] + ch + [" = 3"])
+    if rng.random() < 0.3:                      # the table itself used after the members
+        lines[rng.randrange(nfiles)].append(["return ", (tb, "id")])
+    files, marks = [], []
+    for f in range(nfiles):
+        out, pos, mk = [], 0, []
+        for ln in lines[f]:
+            for part in ln:
+                if isinstance(part, tuple):
+                    mk.append((pos, part[0]))
+                    part = part[0]
+                out.append(part)
+                pos += len(part.encode("utf8"))
+            out.append(eol)
+            pos += len(eol)
+        text = "".join(out)
+        if rng.random() < 0.25:
+            text = text[:len(text) - len(eol)]
+        files.append((rels[f], text))
+        marks.append(mk)
+    items = ["F:%s:%s" % (hxs(p), hxs(t)) for p, t in files]
+    order = list(range(nfiles))
+    rng.shuffle(order)
+    nopen = rng.choice([nfiles, nfiles, 1, 0])  # also files the server only knows from the workspace scan
+    items += ["S:open:%d" % i for i in order[:nopen]]
+    for f in range(nfiles):
+        mk = [x for x in marks[f] if x[1] != tb or rng.random() < 0.3]
+        if len(mk) > 10:
+            mk = rng.sample(mk, 10)
+        posn = lsp_positions(files[f][1], [o for o, _ in mk])
+        for o, nm in sorted(mk):
+            l, c = posn[o]
+            c += rng.choice([0, 0, len(nm) // 2, len(nm) - 1, len(nm)])
+            for op in rng.sample(["define", "refs", "highlight"], rng.choice([2, 3])):
+                items.append("S:%s:%d:%d:%d" % (op, f, l, c))
+            items.append("S:rename:%d:%d:%d:%s" % (f, l, c, hxs(rng.choice(["zz9", "renamed", "q_1"]))))
+    items += ["S:docsym:%d" % i for i in range(nfiles)]
+    items += ["S:wssym:%s" % hxs(rng.choice(["", tb, tb + "."])), "S:diags"]
+    return " ".join(items)
+
+
 def gen_ranges(rng, tier):
     n = {"quick": 400, "thorough": 12000, "search": 300}[tier]
     out = []
     for k in range(n):
         if rng.random() < 0.4:
             out.append(ann_case(rng))
+            continue
+        if rng.random() < 0.2:
+            out.append(cross_case(rng))
             continue
         mode = "ok" if rng.random() < 0.8 else "wild"
         nfiles = rng.choice([1, 1, 1, 2, 3])
